@@ -347,8 +347,24 @@ def r_heads(prog, tier):
     ed_ok = len(ed) == 1 and isinstance(ed[0], ast.ListComp) and not ed[0].generators[0].ifs \
         and unparse(ed[0].elt) == "%s.data['edge']" % unparse(ed[0].generators[0].target)
     ok = True if (idxdefs == want and ed_ok) else None
-    if ok is None and E and idxdefs and recognised and ed_ok and len(idxdefs) >= 2:
-        ok = False      # every case is an expression over the edge list this rule understands, but they are not the heuristic
+    if ok is None and E and idxdefs and ed_ok:
+        # as a function of (HD present, NK present): the cases of deterministic code exclude each other, so where the
+        # visible conditions of several cases fit an assignment, the most specific one is the one the code takes
+        wanted = {(True, True): "%s.index('HD')" % E, (True, False): "%s.index('HD')" % E,
+                  (False, True): "len(%s) - 1 - %s[::-1].index('NK')" % (E, E), (False, False): '0'}
+        got = {}
+        for hd_ in (True, False):
+            for nk_ in (True, False):
+                env_ = {'HD': hd_, 'NK': nk_}
+                fits = [(len(fs_), ex_) for ex_, sets_ in idxdefs.items() for fs_ in sets_
+                        if all(env_.get(k_) == v_ for (k_, v_) in fs_ if k_ in env_) and all(k_ in env_ for (k_, _v) in fs_)]
+                best = max([n_ for (n_, _e) in fits], default=None)
+                top = set(e_ for (n_, e_) in fits if n_ == best)
+                got[(hd_, nk_)] = top.pop() if len(top) == 1 else None
+        if all(got[k_] == wanted[k_] for k_ in wanted):
+            ok = True
+        elif recognised and len(idxdefs) >= 2 and all(v_ is not None for v_ in got.values()):
+            ok = False      # every case is an expression over the edge list this rule understands, but they are not the heuristic
     shown = dict((k, sorted(sorted(x) for x in v)) for k, v in idxdefs.items())
     if use is not None and isinstance(use.ast.targets[0].value.value.slice, ast.Name):
         from ..values import carried_over
@@ -523,7 +539,9 @@ def r_flags(prog, tier):
         if not hit and unres:
             vf = None                # a store on the new node whose key this rule cannot resolve (a class attribute, a computed key)
         elif not hit:
-            if not anyk and not prog.opaque_calls(f, [fp.split('[')[0]]):
+            if not anyk and not copy:
+                vf = None                # the node is not made as a plain copy of the split node: the flag may come with its data
+            elif not anyk and not prog.opaque_calls(f, [fp.split('[')[0]]):
                 vf = False
             elif anyk and one and all(isinstance(d.value, ast.AST) and unparse(d.value) == val for d in anyk):
                 vf = False       # right value, but not with every creation
